@@ -391,12 +391,29 @@ func (c *cluster) call(n *node, region uint64, spec cmdSpec, read bool) {
 	go func() {
 		var resp *pb.RaftCmdResponse
 		var err error
-		if read {
-			resp, err = st0.ReadCommand(req)
-			c.readsInFlight.Add(-1)
-		} else {
-			resp, err = st0.ProposeCommand(req)
-		}
+		func() {
+			// The raft library panics when a Ready is requested after an earlier one
+			// failed without Advance (closed or failing storage): that is the store
+			// process dying, not the harness. The caller gets no answer.
+			defer func() {
+				if r := recover(); r != nil {
+					err = fmt.Errorf("store process died: %v", r)
+					c.mu.Lock()
+					if !in.dead {
+						c.stats["client_goroutine_raft_panics_live_store"]++
+					} else {
+						c.stats["client_goroutine_raft_panics_dead_store"]++
+					}
+					c.mu.Unlock()
+				}
+			}()
+			if read {
+				defer c.readsInFlight.Add(-1)
+				resp, err = st0.ReadCommand(req)
+			} else {
+				resp, err = st0.ProposeCommand(req)
+			}
+		}()
 		r := &event{kind: "ret", w: spec.UID, robs: "RoErr"}
 		if err == nil {
 			switch regionErrKind(resp) {
